@@ -68,11 +68,17 @@ func runPathKeyFamily(rc *RuleCtx) {
 							continue
 						}
 						visited[b] = true
+						// `p.t == PathStrKey`, written either way round
+						subj := b.X
 						id, ok := ast.Unparen(b.Y).(*ast.Ident)
+						if !ok || !fam[id.Name] {
+							id, ok = ast.Unparen(b.X).(*ast.Ident)
+							subj = b.Y
+						}
 						if !ok || !fam[id.Name] {
 							continue
 						}
-						k := types.ExprString(b.X)
+						k := types.ExprString(subj)
 						if bySubj[k] == nil {
 							bySubj[k] = map[string]bool{}
 						}
